@@ -19,7 +19,7 @@ from vf.ref import mapping as rm
 from vf.ref.table import RefTable
 from vf.ref.table import Unspecified as TableUnspecified
 
-FOR_CAP = 512
+FOR_CAP = 4096
 
 
 class Reject(Exception):
@@ -114,7 +114,7 @@ class Model:
         return s
 
     def expand(self, stmts: list, scope: Scope, depth: int = 0) -> None:
-        if depth > 60:
+        if depth > 200:
             raise Unspec("deep recursion")
         for st in stmts:
             k = st["k"]
